@@ -334,6 +334,11 @@ def ref_eval(nodes, objs, atts):
     return out
 
 
+def rel_ok(tpl):
+    """can be the description of a property relation: a normalised XML token of at most 255 characters"""
+    return len(tpl) <= 255 and ' '.join(tpl.split()) == tpl and tpl != ''
+
+
 def cap(s):
     return s[:1].upper() + s[1:] if s else s
 
@@ -368,7 +373,7 @@ class C16(Property):
     def rule(self):
         return ('cases: (template syntax tree incl. invalid argument lists, events); observed: validation verdict; for accepted '
                 'templates and each event x representation: the evaluation result or exception via Template.evaluate and via '
-                'EventType.evaluate_template (as story and summary), repeated twice, and the event view before/after; '
+                'EventType.evaluate_template (as story) and PropertyRelation.evaluate_description, repeated twice, and the event view before/after; '
                 'non-trivial = an accepted template with a scope and an event that makes some scope collapse; distinct by content')
 
     def generate(self, rng, tier):
@@ -399,6 +404,7 @@ class C16(Property):
         if verdict != 'ok':
             return {'template': tpl, 'verdict': verdict, 'evals': []}
         evals = []
+        relation = et['s'].relate_to('related to', 't', reason=tpl) if rel_ok(tpl) else None
         for ev in case['events']:
             e = gen.build_event(ev, case['rep'])
             before = gen.event_view(e)
@@ -416,6 +422,11 @@ class C16(Property):
             try:
                 et.set_story_template(tpl)
                 outs.append(et.evaluate_template(e, 'story', capitalize=True))
+            except Exception as ex:
+                outs.append('raised:' + type(ex).__name__)
+            try:
+                # the same template as the description of a property relation (evaluated without attachments)
+                outs.append(relation.evaluate_description(e.get_properties(), capitalize=False) if relation is not None else 'n/a')
             except Exception as ex:
                 outs.append('raised:' + type(ex).__name__)
             after = gen.event_view(e)
@@ -482,8 +493,9 @@ class C16(Property):
                 'dates': dates, 'spans': spans, 'durations': durations}
 
     def requests(self, case):
-        return [{'op': 'template', 'template': case['template'], 'props': [[k, v[0]] for k, v in PROPS.items()], 'attachments': ATTACHMENTS,
-                 'envs': [self.env_of(ev, case['rep']) for ev in case['events']]}]
+        envs = [self.env_of(ev, case['rep']) for ev in case['events']]
+        req = {'op': 'template', 'template': case['template'], 'props': [[k, v[0]] for k, v in PROPS.items()], 'attachments': ATTACHMENTS}
+        return [dict(req, envs=envs), dict(req, envs=[dict(env, atts=[]) for env in envs])]
 
     def predict(self, case, replies):
         r = replies[0]
@@ -491,12 +503,13 @@ class C16(Property):
         if not r['valid']:
             return {'template': tpl, 'verdict': 'invalid', 'evals': []}
         evals = []
-        for out in r['outs']:
+        for out, bare in zip(r['outs'], replies[1]['outs']):
             if isinstance(out, dict):
                 s = out['ok']
-                evals.append({'outs': [s, s, cap(s)], 'unchanged': True, 'order': 'undecided', 'changed': None})
+                evals.append({'outs': [s, s, cap(s), 'n/a' if not rel_ok(tpl) else bare['ok'] if isinstance(bare, dict) else 'model:' + bare],
+                              'unchanged': True, 'order': 'undecided', 'changed': None})
             else:
-                evals.append({'outs': ['model:' + out] * 3, 'unchanged': True, 'order': 'undecided', 'changed': None})
+                evals.append({'outs': ['model:' + out] * 4, 'unchanged': True, 'order': 'undecided', 'changed': None})
         return {'template': tpl, 'verdict': 'ok', 'evals': evals}
 
     def fill_undecided(self, case, obs, pred):
@@ -545,6 +558,11 @@ class C16(Property):
                     return '%s: every placeholder of the outer scope... expected the empty string, got %r' % (where, got)
             elif not re.fullmatch(pattern, got, re.S):
                 return '%s: evaluates to %r, expected something matching %r' % (where, got, pattern[:300])
+            bare = ref_eval(nodes, objs, {})
+            if r['outs'][3] == 'n/a':
+                pass
+            elif (bare == '') != (r['outs'][3] == '') or (bare and not re.fullmatch(bare, r['outs'][3], re.S)):
+                return '%s: as a relation description it evaluates to %r, expected something matching %r' % (where, r['outs'][3], bare[:300])
             if r['outs'][2] != cap(got) and not got.startswith('\n'):
                 return '%s: EventType.evaluate_template gives %r, Template.evaluate %r' % (where, r['outs'][2], got)
         return None
